@@ -333,6 +333,16 @@ def run_one(ctx, case):
             big = np.empty((outer[0], 2 * outer[1]), dtype=object)
             big[:, ::2] = cont
             layouts.append(('strided', big[:, ::2]))
+        # the tie of the model the theorems C17.container_shape / container_element are about: the whole coefficient array
+        cz = bool(np.iscomplexobj(x))
+        m = ctx.model.arrs(dict({'op': 'conv', 'what': 'container', 'x': enc_arr(x, cz), 'outer': [int(k) for k in outer]}, **({'f': 'QI'} if cz else {})))
+        if isinstance(m, str):
+            return 'container-model: the model rejected the case (%s)' % m[:80]
+        for nm_, f_ in (('as_utpm', UTPM.as_utpm), ('ndarray2utpm', utils.ndarray2utpm)):
+            ym = f_(cont)
+            if ym.data.shape != np.asarray(m[0]).shape or not np.array_equal(ym.data, m[0]):
+                return 'container-mismatch: %s of a container of shape %s differs from the model (result shape %s, model %s)' % (
+                    nm_, outer, ym.data.shape, np.asarray(m[0]).shape)
         for lname, c_ in layouts:
             y = UTPM.as_utpm(c_)
             for idx in np.ndindex(*outer):
